@@ -782,7 +782,11 @@ func (g *x03Gen) headerText() string {
 	case 0:
 	case 1:
 		g.hit("tail/key-like")
-		b.WriteString([]string{"x=1", "a b=1; c", "1a=3;", "=2;", "_a=1;", "é=1;", "x = 'unterminated", "name=Homo sapiens"}[g.rnd(8)])
+		t := []string{"x=1", "a b=1; c", "1a=3;", "=2;", "_a=1;", "é=1;", "x = 'unterminated", "name=Homo sapiens"}[g.rnd(8)]
+		if t[0] >= 0x80 && strings.HasSuffix(b.String(), ";") {
+			b.WriteString(" ") // the code as written drops one BYTE after a ';': half a character cannot be told to TLC
+		}
+		b.WriteString(t)
 	case 2:
 		b.WriteString(" " + g.word(3, 30, true) + " ")
 	default:
@@ -1052,6 +1056,19 @@ func x03WriteFiles(env *Env, g *x03Gen, dir string) {
 					if fl, ok := v.(float64); ok && fl != math.Trunc(fl) {
 						delete(ann, key)
 					}
+				}
+			}
+			// the three keys the commands give a meaning to carry values of their kind
+			delete(ann, "count")
+			delete(ann, "taxid")
+			delete(ann, "scientific_name")
+			if g.rnd(2) == 0 {
+				ann["count"] = 1 + g.rnd(500)
+			}
+			if g.rnd(3) == 0 {
+				ann["taxid"] = []int{1, 9606, 4530}[g.rnd(3)]
+				if g.rnd(2) == 0 {
+					ann["scientific_name"] = "sHomo sapiens"
 				}
 			}
 			if strings.HasPrefix(def, "{") && len(ann) == 0 {
